@@ -1,11 +1,16 @@
 (* C25 — TLS application data arrives intact or not at all.
    Property theorems only; each is closed by [exact] of a lemma from
-   proof/C25Proofs.v and followed by Print Assumptions. *)
+   proof/C25*.v and followed by Print Assumptions.
+
+   The primitives (stream cipher, CBC mode, AEAD, MAC) are universally
+   quantified functions; what is assumed about them is spelled out as premises
+   (the "laws").  Nothing is assumed about their security in these theorems. *)
 From Coq Require Import List NArith ZArith Bool Arith.
 From Verif Require Import Harness.
 From VerifModel Require Import C25.
-From VerifProof Require Import C25Proofs.
+From VerifProof Require Import C25Proofs C25Record C25Stream.
 Import ListNotations.
+Local Open Scope Z_scope.
 
 (* extractPadding (uint/int32 arithmetic modelled bit for bit) computes the
    RFC 2246 6.2.3.2 padding check for every payload shorter than 2^31 bytes *)
@@ -14,3 +19,107 @@ Theorem C25_extract_padding_spec : forall payload,
   extract_padding payload = extract_padding_ref payload.
 Proof. exact extract_padding_spec. Qed.
 Print Assumptions C25_extract_padding_spec.
+
+(* decrypt o encrypt = id for every cipher kind (stream+MAC, CBC+MAC with
+   implicit or explicit IV, TLS 1.2 AEAD with or without explicit nonce, TLS 1.3
+   AEAD with inner content type) and every version: a reader in the writer's
+   state recovers exactly (payload, type) and ends in the writer's new state
+   (sequence number, CBC chaining value, key-stream position) *)
+Theorem C25_decrypt_encrypt :
+  forall (stream : Z -> bytes -> bytes) (cbc_enc cbc_dec : bytes -> bytes -> bytes)
+         (seal : bytes -> bytes -> bytes -> bytes) (aopen : bytes -> bytes -> bytes -> option bytes)
+         (mac : bytes -> bytes) (BS MS OVH : Z),
+  (forall pos a b, stream pos (a ++ b) = stream pos a ++ stream (pos + zlen a) b) ->
+  (forall pos x, stream pos (stream pos x) = x) ->
+  (forall pos x, zlen (stream pos x) = zlen x) ->
+  (forall iv x, zlen (cbc_enc iv x) = zlen x) ->
+  (forall iv x, zlen x mod BS = 0 -> cbc_dec iv (cbc_enc iv x) = x) ->
+  (forall n ad p, zlen (seal n ad p) = zlen p + OVH) ->
+  (forall n ad p, aopen n ad (seal n ad p) = Some p) ->
+  (forall x, zlen (mac x) = MS) ->
+  (forall x, wf_bytes (mac x)) ->
+  forall st hdr payload rnd rec st' calls,
+    wf_state BS MS OVH st -> wf_header st hdr payload ->
+    half_encrypt stream cbc_enc seal mac st hdr payload rnd = Ok (rec, st', calls) ->
+    exists calls', half_decrypt stream cbc_dec aopen mac st rec = Ok (payload, hd0 hdr, st', calls').
+Proof. exact decrypt_encrypt. Qed.
+Print Assumptions C25_decrypt_encrypt.
+
+(* both sequence numbers advance by exactly one per record (or encrypt panics) *)
+Theorem C25_encrypt_advances_seq :
+  forall stream cbc_enc seal mac st hdr payload rnd rec st' calls,
+    knd st <> KNull ->
+    half_encrypt stream cbc_enc seal mac st hdr payload rnd = Ok (rec, st', calls) ->
+    inc_seq (seqno st) = Some (seqno st') /\ knd st' = knd st /\ version st' = version st.
+Proof. exact encrypt_seq. Qed.
+Print Assumptions C25_encrypt_advances_seq.
+
+(* fragmentation, for any primitives whatsoever: the plaintext fragments of a
+   sequence of Writes (dynamic record sizing and the TLS 1.0 1/n-1 split
+   included), in order, are exactly the bytes written, and every record carries
+   between 1 and 2^14 plaintext bytes *)
+Theorem C25_fragmentation :
+  forall stream cbc_enc seal mac ws c rnd rs c' rnd',
+    conn_writes stream cbc_enc seal mac c ws rnd = Ok (rs, c', rnd') ->
+    concat (frags rs) = concat ws /\ Forall (fun f => 1 <= zlen f <= 16384) (frags rs).
+Proof. exact conn_writes_fragments. Qed.
+Print Assumptions C25_fragmentation.
+
+(* the reader's result does not depend on how the transport segments the bytes *)
+Theorem C25_segmentation_independent :
+  forall stream cbc_dec aopen mac fuel st retry raw segs,
+    read_app_segs stream cbc_dec aopen mac fuel st retry raw segs =
+    read_app stream cbc_dec aopen mac fuel st retry (raw ++ concat segs).
+Proof. exact read_segmentation_independent. Qed.
+Print Assumptions C25_segmentation_independent.
+
+(* the stream theorem: for every sequence of Writes and every segmentation of
+   the resulting wire, a reader started in the writer's state returns exactly
+   the bytes written, in order, and then a clean end of stream *)
+Theorem C25_stream_intact :
+  forall (stream : Z -> bytes -> bytes) (cbc_enc cbc_dec : bytes -> bytes -> bytes)
+         (seal : bytes -> bytes -> bytes -> bytes) (aopen : bytes -> bytes -> bytes -> option bytes)
+         (mac : bytes -> bytes) (BS MS OVH : Z),
+  (forall pos a b, stream pos (a ++ b) = stream pos a ++ stream (pos + zlen a) b) ->
+  (forall pos x, stream pos (stream pos x) = x) ->
+  (forall pos x, zlen (stream pos x) = zlen x) ->
+  (forall iv x, zlen (cbc_enc iv x) = zlen x) ->
+  (forall iv x, zlen x mod BS = 0 -> cbc_dec iv (cbc_enc iv x) = x) ->
+  (forall n ad p, zlen (seal n ad p) = zlen p + OVH) ->
+  (forall n ad p, aopen n ad (seal n ad p) = Some p) ->
+  (forall x, zlen (mac x) = MS) ->
+  (forall x, wf_bytes (mac x)) ->
+  forall c ws rnd rs c' rnd' segs fuel retry,
+    wf_state BS MS OVH (cw_hs c) -> wf_limits (cw_hs c) -> supported_version (version (cw_hs c)) ->
+    wf_bytes (concat ws) ->
+    conn_writes stream cbc_enc seal mac c ws rnd = Ok (rs, c', rnd') ->
+    concat segs = concat (wrecs rs) -> (length rs < fuel)%nat ->
+    read_app_segs stream cbc_dec aopen mac fuel (cw_hs c) retry [] segs = (concat ws, EndEOF).
+Proof. exact stream_intact. Qed.
+Print Assumptions C25_stream_intact.
+
+(* non-vacuity: the laws have a model, and the hypotheses of the stream theorem
+   are met by a concrete run whose result is the data *)
+Theorem C25_laws_satisfiable :
+  (forall pos a b, id_stream pos (a ++ b) = id_stream pos a ++ id_stream (pos + zlen a) b) /\
+  (forall pos x, id_stream pos (id_stream pos x) = x) /\
+  (forall pos x, zlen (id_stream pos x) = zlen x) /\
+  (forall iv x, zlen (id_cbc iv x) = zlen x) /\
+  (forall iv x, zlen x mod 16 = 0 -> id_cbc iv (id_cbc iv x) = x) /\
+  (forall n ad p, zlen (pad_seal n ad p) = zlen p + 16) /\
+  (forall n ad p, pad_open n ad (pad_seal n ad p) = Some p) /\
+  (forall x, zlen (zero_mac x) = 20) /\
+  (forall x, wf_bytes (zero_mac x)).
+Proof. exact laws_satisfiable. Qed.
+Print Assumptions C25_laws_satisfiable.
+
+Theorem C25_stream_nonvacuous :
+  wf_state 16 20 16 nv_state /\ wf_limits nv_state /\ supported_version (version nv_state) /\
+  wf_bytes (concat nv_writes) /\
+  exists rs c' rnd',
+    conn_writes id_stream id_cbc pad_seal zero_mac nv_conn nv_writes [] = Ok (rs, c', rnd') /\
+    length rs = 2%nat /\
+    read_app_segs id_stream id_cbc pad_open zero_mac 3 nv_state 0 []
+      (map (fun b => [b]) (concat (wrecs rs))) = (concat nv_writes, EndEOF).
+Proof. exact stream_nonvacuous. Qed.
+Print Assumptions C25_stream_nonvacuous.
